@@ -132,7 +132,6 @@ func statusSwitchMapping(p *core.Prog, h *core.RuleH, fn *ssa.Function) {
 
 func runC01(p *core.Prog, r *core.Report) {
 	r.Explain = "Decides that every metabase view consults the shared status machinery before it yields an object, on all CFG paths: exists, get (unless its caller asked to skip the status, callers tabled), filtered and unfiltered search, listing, expired iteration, EC part resolution and IsLocked pass containerMarkedGC==false and the object-status test with the 'available' outcome; the search handler records an object only after the additional (status) checker accepted it; the three removed states map to the same error classes in every view; the two expiry predicates are strict and oriented the same way; the nested status takes the worse of own and parent status; inGarbage reports tombstoned/GC-marked only on the matching lookups. Every function opening a read transaction is classified (a new view fails the check until classified). Not covered: that the status function implements the reference rules on every history (parent inheritance across collisions, interplay of marks) — that is behavioural."
-	need := func(names ...string) func(string) []string { return func(string) []string { return names } }
 	// ---------------- R0 classification of read transactions
 	r0 := r.Rule("C01.R0", "every metabase function that opens a bbolt read transaction is classified as an object view (ruled below) or as not yielding objects by status (with reason)", 15)
 	views := map[string]string{
@@ -204,73 +203,7 @@ func runC01(p *core.Prog, r *core.Report) {
 	if f := get(mbDB + "Get$1"); f != nil {
 		core.CheckEffectsFn(p, r1, f, core.EffectRule{Min: 1, Guards: []core.Guard{cnrNotGC()}, Effect: core.CallTo(mb + "get")})
 	}
-	// filtered search: the status closure and its use
-	if f := get(mbDB + "searchTx"); f != nil {
-		var chk *ssa.Function
-		for _, a := range f.AnonFuncs {
-			if len(core.CallSites([]*ssa.Function{a}, func(s core.Site) bool { return s.Name == mb+"objectStatus" })) > 0 {
-				chk = a
-			}
-		}
-		if chk == nil {
-			r1.Bad(core.FuncName(f)+"#status-checker", p.Pos(f.Pos()), "searchTx no longer builds a status checker from objectStatus")
-		} else {
-			good := false
-			for _, b := range chk.Blocks {
-				if ret, ok := b.Instrs[len(b.Instrs)-1].(*ssa.Return); ok && len(ret.Results) == 1 {
-					if bo, ok := ret.Results[0].(*ssa.BinOp); ok && bo.Op == token.EQL {
-						c, isC := bo.X.(*ssa.Call)
-						k, isK := intConstOf(bo.Y)
-						good = isC && core.CalleeName(c) == mb+"objectStatus" && isK && k == stAvail && core.ParamIndex(chk, c.Call.Args[1]) == 0
-					}
-				}
-			}
-			r1.Check(good, core.FuncName(chk)+"#returns-status-available", p.Pos(chk.Pos()), "the checker is objectStatus(id)==statusAvailable of its own argument", "the search status checker is not `objectStatus(<its id>) == statusAvailable`")
-			// passed as additionalCheck (3rd argument) and container guard dominates the handler use
-			passed := false
-			for _, s := range core.CallSites([]*ssa.Function{f}, func(s core.Site) bool { return s.Name == "pkg/core/object.MetaDataKVHandler" }) {
-				if mc, ok := core.Unwrap(s.Call.Common().Args[2]).(*ssa.MakeClosure); ok && mc.Fn == chk {
-					passed = true
-				}
-			}
-			r1.Check(passed, core.FuncName(f)+"#MetaDataKVHandler!additionalCheck", p.Pos(f.Pos()), "the status checker is handed to the search handler", "the status checker is not passed to MetaDataKVHandler as additionalCheck")
-		}
-		core.CheckEffectsFn(p, r1, f, core.EffectRule{Min: 1, Guards: []core.Guard{cnrNotGC()}, Effect: core.CallTo("pkg/core/object.MetaDataKVHandler")})
-	}
-	if f := get("pkg/core/object.MetaDataKVHandler$1"); f != nil {
-		isChk := func(v ssa.Value) bool {
-			u, ok := v.(*ssa.UnOp)
-			if !ok || u.Op != token.MUL {
-				fv, isFV := v.(*ssa.FreeVar)
-				return isFV && fv.Name() == "additionalCheck"
-			}
-			fv, ok := u.X.(*ssa.FreeVar)
-			return ok && fv.Name() == "additionalCheck"
-		}
-		gs := []core.Guard{
-			{Name: "no-checker", Comps: []core.Comp{{Result: -1, Kind: core.IsNil}}, Pure: true, Value: func(_ *ssa.Function, v ssa.Value) bool { return isChk(v) }},
-			{Name: "checker-accepted", Comps: []core.Comp{{Result: -1, Kind: core.IsTrue}}, Match: func(s core.Site) bool { return !s.Call.Common().IsInvoke() && isChk(s.Call.Common().Value) }},
-		}
-		core.CheckEffectsFn(p, r1, f, core.EffectRule{Min: 1, Guards: gs, Derived: []core.Derived{{Name: "checker-absent-or-accepted", Alts: [][]string{{"no-checker"}, {"checker-accepted"}}}},
-			Need: need("checker-absent-or-accepted"), Effect: func(_ *core.Prog, in ssa.Instruction) (string, bool) {
-				st, ok := in.(*ssa.Store)
-				if !ok {
-					return "", false
-				}
-				fa, ok := st.Addr.(*ssa.FieldAddr)
-				if ok && core.FieldAddrName(fa) == "(pkg/core/object.SearchResult).Objects" {
-					return "record-result", true
-				}
-				return "", false
-			}})
-	}
-	// unfiltered search
-	if f := get(mbDB + "searchUnfiltered$1"); f != nil {
-		avail := core.Guard{Name: "status-available", Match: func(s core.Site) bool { return s.Name == mb+"objectStatus" }, Comps: []core.Comp{{Result: -1, Kind: core.EqConst, Const: stAvail}}}
-		core.CheckEffectsFn(p, r1, f, core.EffectRule{Min: 1, Guards: []core.Guard{cnrNotGC(), avail}, Effect: func(_ *core.Prog, in ssa.Instruction) (string, bool) {
-			return "n++", storeToFreeVar(in, "n")
-		}})
-	}
+	searchStatusRule(p, r, r1)
 	// listing
 	runListingRule(p, r, r1)
 	// expired iteration (lock clause is C07.R2)
@@ -614,6 +547,86 @@ func runC06(p *core.Prog, r *core.Report) {
 			}
 			fa, ok := st.Addr.(*ssa.FieldAddr)
 			return "reset-object-cursor", ok && core.FieldAddrName(fa) == "("+mb+"Cursor).lastObjectID"
+		}})
+	}
+}
+
+// searchStatusRule: filtered and unfiltered search yield only through the status check. Shared by C01.R1 and C03.R4.
+func searchStatusRule(p *core.Prog, r *core.Report, r1 *core.RuleH) {
+	need := func(names ...string) func(string) []string { return func(string) []string { return names } }
+	stAvail, _ := p.ConstInt(mb + "statusAvailable")
+	get := func(name string) *ssa.Function {
+		f := p.Func(name)
+		if f == nil {
+			r.Fatalf("search rule: anchor %s not found", name)
+		}
+		return f
+	}
+	// filtered search: the status closure and its use
+	if f := get(mbDB + "searchTx"); f != nil {
+		var chk *ssa.Function
+		for _, a := range f.AnonFuncs {
+			if len(core.CallSites([]*ssa.Function{a}, func(s core.Site) bool { return s.Name == mb+"objectStatus" })) > 0 {
+				chk = a
+			}
+		}
+		if chk == nil {
+			r1.Bad(core.FuncName(f)+"#status-checker", p.Pos(f.Pos()), "searchTx no longer builds a status checker from objectStatus")
+		} else {
+			good := false
+			for _, b := range chk.Blocks {
+				if ret, ok := b.Instrs[len(b.Instrs)-1].(*ssa.Return); ok && len(ret.Results) == 1 {
+					if bo, ok := ret.Results[0].(*ssa.BinOp); ok && bo.Op == token.EQL {
+						c, isC := bo.X.(*ssa.Call)
+						k, isK := intConstOf(bo.Y)
+						good = isC && core.CalleeName(c) == mb+"objectStatus" && isK && k == stAvail && core.ParamIndex(chk, c.Call.Args[1]) == 0
+					}
+				}
+			}
+			r1.Check(good, core.FuncName(chk)+"#returns-status-available", p.Pos(chk.Pos()), "the checker is objectStatus(id)==statusAvailable of its own argument", "the search status checker is not `objectStatus(<its id>) == statusAvailable`")
+			// passed as additionalCheck (3rd argument) and container guard dominates the handler use
+			passed := false
+			for _, s := range core.CallSites([]*ssa.Function{f}, func(s core.Site) bool { return s.Name == "pkg/core/object.MetaDataKVHandler" }) {
+				if mc, ok := core.Unwrap(s.Call.Common().Args[2]).(*ssa.MakeClosure); ok && mc.Fn == chk {
+					passed = true
+				}
+			}
+			r1.Check(passed, core.FuncName(f)+"#MetaDataKVHandler!additionalCheck", p.Pos(f.Pos()), "the status checker is handed to the search handler", "the status checker is not passed to MetaDataKVHandler as additionalCheck")
+		}
+		core.CheckEffectsFn(p, r1, f, core.EffectRule{Min: 1, Guards: []core.Guard{cnrNotGC()}, Effect: core.CallTo("pkg/core/object.MetaDataKVHandler")})
+	}
+	if f := get("pkg/core/object.MetaDataKVHandler$1"); f != nil {
+		isChk := func(v ssa.Value) bool {
+			u, ok := v.(*ssa.UnOp)
+			if !ok || u.Op != token.MUL {
+				fv, isFV := v.(*ssa.FreeVar)
+				return isFV && fv.Name() == "additionalCheck"
+			}
+			fv, ok := u.X.(*ssa.FreeVar)
+			return ok && fv.Name() == "additionalCheck"
+		}
+		gs := []core.Guard{
+			{Name: "no-checker", Comps: []core.Comp{{Result: -1, Kind: core.IsNil}}, Pure: true, Value: func(_ *ssa.Function, v ssa.Value) bool { return isChk(v) }},
+			{Name: "checker-accepted", Comps: []core.Comp{{Result: -1, Kind: core.IsTrue}}, Match: func(s core.Site) bool { return !s.Call.Common().IsInvoke() && isChk(s.Call.Common().Value) }},
+		}
+		core.CheckEffectsFn(p, r1, f, core.EffectRule{Min: 1, Guards: gs, Derived: []core.Derived{{Name: "checker-absent-or-accepted", Alts: [][]string{{"no-checker"}, {"checker-accepted"}}}},
+			Need: need("checker-absent-or-accepted"), Effect: func(_ *core.Prog, in ssa.Instruction) (string, bool) {
+				st, ok := in.(*ssa.Store)
+				if !ok {
+					return "", false
+				}
+				fa, ok := st.Addr.(*ssa.FieldAddr)
+				if ok && core.FieldAddrName(fa) == "(pkg/core/object.SearchResult).Objects" {
+					return "record-result", true
+				}
+				return "", false
+			}})
+	}
+	// unfiltered search
+	if f := get(mbDB + "searchUnfiltered$1"); f != nil {
+		avail := core.Guard{Name: "status-available", Match: func(s core.Site) bool { return s.Name == mb+"objectStatus" }, Comps: []core.Comp{{Result: -1, Kind: core.EqConst, Const: stAvail}}}
+		core.CheckEffectsFn(p, r1, f, core.EffectRule{Min: 1, Guards: []core.Guard{cnrNotGC(), avail}, Effect: func(_ *core.Prog, in ssa.Instruction) (string, bool) {
+			return "n++", storeToFreeVar(in, "n")
 		}})
 	}
 }
